@@ -166,6 +166,37 @@ def shared_scenario(rng, idx):
             "all_rens": rens, "direct": ["replace", s + "\\d", r, "-y", "--no-auto-init", "--quiet"]}
 
 
+def cycle_scenario(rng, idx):
+    """a chain that closes on itself: a swap (ab <-> ba) or a rotation (abc -> bca -> cab -> abc) of files, symlinks or
+    empty directories, planned by `replace` with capture groups; every destination is the source of another rename of
+    the same plan, so there is no order in which plain rename(2) calls keep all the nodes"""
+    k = 2 + idx % 2
+    kind = ["file", "file", "dir", "link"][idx % 4]
+    sub = "" if idx % 3 else "pkg/"
+    stem = rng.choice(["q", "zz", "w9"])
+    if k == 2:
+        names, pat, rep = ["ab", "ba"], "(a)(b)|(b)(a)", "$2$1$4$3"
+    else:
+        names, pat, rep = ["abc", "bca", "cab"], "(a)(b)(c)|(b)(c)(a)|(c)(a)(b)", "$2$3$1$5$6$4$8$9$7"
+    ext = ".txt" if kind == "file" else ""
+    paths = [f"{sub}{stem}_{n}{ext}" for n in names]
+    tree = {}
+    if sub:
+        tree["pkg"] = ("d", 0o755)
+    for i, p in enumerate(paths):
+        if kind == "file":
+            tree[p] = ("f", f"PAYLOAD {i} OF THE CYCLE\n".encode(), 0o644)
+        elif kind == "dir":
+            tree[p] = ("d", 0o755)
+        else:
+            tree[p] = ("l", f"target-{i}")
+    tree[sub + "unrelated.md"] = ("f", b"NOTHING HERE\n", 0o644)
+    kd = "d" if kind == "dir" else "f"
+    rens = [(kd, paths[i], paths[(i + 1) % k]) for i in range(k)]
+    return {"search": pat, "replace": rep, "tree": tree, "src": paths[0], "dst": paths[1], "occupant": "cycle", "kind": kind,
+            "all_rens": rens, "direct": ["replace", pat, rep, "-y", "--no-auto-init", "--quiet"]}
+
+
 def file_multiset(snap):
     out = {}
     for p, v in snap.items():
@@ -223,7 +254,7 @@ def run_cli(ctx, sc):
     res["lost"] = lost
     # the occupant (not moved by the plan) must be untouched
     occ_untouched = True
-    if sc["occupant"] not in ("none", "chain", "shared"):
+    if sc["occupant"] not in ("none", "chain", "shared", "cycle"):
         moved = {a for a, _ in res["renames"]}
         if sc["dst"] not in moved:
             occ_untouched = before.get(sc["dst"]) == after.get(sc["dst"])
@@ -240,6 +271,8 @@ def classify(sc, res):
         if res["lost"]:
             if sc["occupant"] == "shared":
                 return f"shared_destination_{sc['kind']}_lost"
+            if sc["occupant"] == "cycle":
+                return f"cycle_{sc['kind']}_lost"
             return "chain_overwrites" if sc["occupant"] == "chain" else f"occupied_{sc['occupant']}_{sc['kind']}_lost"
         if not res["occupant_untouched"]:
             return f"occupied_{sc['occupant']}_{sc['kind']}_replaced"
@@ -256,7 +289,8 @@ def run(ctx):
                        "destinations that differ from the source only by letter case and are occupied by a file / directory / "
                        "symlink elsewhere / symlink to the source itself, plus occupied destinations one or two levels inside a "
                        "directory that the same plan renames, plus 2-3 sources (files or directories) that one plan maps to ONE "
-                       "destination (regex planner of `replace`; by-construction plans with a repeated or an identity rename mixed in); "
+                       "destination (regex planner of `replace`; by-construction plans with a repeated or an identity rename mixed in), "
+                       "plus chains that close on themselves (swap, rotation of three: files, empty directories, symlinks); "
                        "each run through the CLI (plan + apply) and through applytree (model correspondence). "
                        "non-trivial = destination occupied or chain; distinct = (terms, shape)")
     ctx.assumptions += ["POSIX rename(2) semantics as in RModel.Model.Fs", "case-insensitive filesystems not modelled"]
@@ -269,14 +303,14 @@ def run(ctx):
     n = 200 if ctx.thorough else 50
     scs = ([scenario(rng, i) for i in range(n)] + [chain_scenario(rng) for _ in range(n // 5)]
            + [caseonly_scenario(rng, i) for i in range(n // 2)] + [nested_scenario(rng, i) for i in range(n // 2)]
-           + [shared_scenario(rng, i) for i in range(n // 2)])
+           + [shared_scenario(rng, i) for i in range(n // 2)] + [cycle_scenario(rng, i) for i in range(n // 2)])
 
     # correspondence: a by-construction plan (rename src -> dst) through applytree
     reqs = []
     for sc in scs:
         kind = "d" if sc["kind"] == "dir" else "f"
         rens = [(kind, sc["src"], sc["dst"])] + sc.get("extra_rens", [])
-        if sc["occupant"] == "shared":
+        if sc["occupant"] in ("shared", "cycle"):
             rens = sc["all_rens"]
         if sc["occupant"] == "chain":
             ch = sc["chain"]
